@@ -142,6 +142,15 @@ def generate (api : List Method) (views : List (List Method)) (ss : List Setting
   | [] => []
   | _ :: vs => let e := validate api ss; if e.isEmpty then generate api vs ss else e
 
+/-- `API.build`, third pass — selective GAPIC generation
+(`library_settings[proto package].python_settings.common.selective_gapic_generation`): with a non-empty allow-list
+`methods` the protos are pruned to the allow-listed methods (omit mode: an omitted method is no entry of
+`all_methods` any more), unless `generate_omitted_as_internal` is set (then every method stays, the omitted ones
+marked internal).  `enforce_valid_method_settings` itself never looks at the allow-list: it validates against the
+`all_methods` of the API it is given. -/
+def prune (allow : List String) (internal : Bool) (api : List Method) : List Method :=
+  if allow.isEmpty || internal then api else viewOf api allow
+
 /-! ### Population at call time -/
 
 /-- the request object: the fields that are *present* with their values (order irrelevant); reading a
